@@ -605,5 +605,118 @@ def lift_call(f, args, kwargs):
     return base._apply(at)
 
 
+class CondTag(object):
+    """Element yielded by a lazily iterated SymTagSet: the tag text plus its presence condition.
+    Only predicate calls the engine knows to be existential (`fnmatchcase(tag, pattern)`, `tag ==
+    name`) may consume it; anything else is Unsupported (loud), never silently 'present'."""
+    __slots__ = ("text", "cond")
+
+    def __init__(self, text, cond):
+        self.text = text
+        self.cond = cond
+
+    def holds(self, result):
+        if not result:
+            return False
+        return self.cond
+
+    def __eq__(self, other):
+        return self.holds(self.text == other)
+
+    def __ne__(self, other):
+        raise Unsupported("CondTag !=")
+
+    def __hash__(self):
+        raise Unsupported("hash(CondTag)")
+
+    def __getattr__(self, name):
+        raise Unsupported("CondTag.%s" % name)
+
+    def __str__(self):
+        raise Unsupported("str(CondTag)")
+
+
+class SymTagSet(object):
+    """A set of tags over a finite universe whose membership of each tag is a (z3) Boolean.
+    `a in s` is one Bool; iteration case-splits on membership (in universe order), or - with
+    lazy=True - yields CondTag elements so that `any tag matches P` loops fork only on matching tags."""
+
+    def __init__(self, universe, member, lazy=False):
+        self.universe = list(universe)
+        self.member = dict(member)      # name -> SymBool | bool
+        self.lazy = lazy
+
+    def copy(self):
+        return SymTagSet(self.universe, self.member, self.lazy)
+
+    def sx_contains(self, item):
+        if isinstance(item, SymChoice):
+            return lift_call(lambda x: self.sx_contains(x), (item,), {})
+        m = self.member.get(item, False)
+        return m
+
+    def __contains__(self, item):
+        return bool(self.sx_contains(item))
+
+    def __iter__(self):
+        for t in self.universe:
+            m = self.member.get(t, False)
+            if self.lazy and isinstance(m, SymBool):
+                yield CondTag(t, m)
+            elif m:
+                yield t
+
+    def _merge(self, other):
+        if isinstance(other, SymTagSet):
+            for t in other.universe:
+                if t not in self.universe:
+                    self.universe.append(t)
+                a, b = self.member.get(t, False), other.member.get(t, False)
+                if a is True or b is True:
+                    self.member[t] = True
+                elif a is False:
+                    self.member[t] = b
+                elif b is False:
+                    self.member[t] = a
+                else:
+                    self.member[t] = SymBool(z3.Or(zbool(a), zbool(b)))
+        else:
+            for t in other:
+                if t not in self.universe:
+                    self.universe.append(t)
+                self.member[t] = True
+        return self
+
+    def update(self, *others):
+        for o in others:
+            self._merge(o)
+
+    def add(self, t):
+        self._merge([t])
+
+    def union(self, *others):
+        r = self.copy()
+        r.update(*others)
+        return r
+
+    __or__ = union
+
+    def sx_not(self):
+        return SymBool(z3.Not(z3.Or([zbool(m) for m in self.member.values()]))) if self.member else True
+
+    def __bool__(self):
+        r = self.sx_not()
+        return not (bool(r))
+
+    def __len__(self):
+        n = 0
+        for _ in self:
+            n += 1
+        return n
+
+    def __repr__(self):
+        return "<SymTagSet %s>" % (self.universe,)
+
+
 def is_sym(x):
-    return isinstance(x, (SymBool, SymInt, SymEnum, SymChoice))
+    return isinstance(x, (SymBool, SymInt, SymEnum, SymChoice, SymTagSet))
